@@ -118,15 +118,16 @@ def ast_dict_keys(rel, varname):
 
 
 def cross_check(rel, varname, live, tuple_keys):
-    a = ast_dict_keys(rel, varname)
+    # the live table is what is dumped; the dict literal of the source, when the table still is one, must list the same keys
+    a = soft(ast_dict_keys, rel, varname)
     l = [((k[0], len(k)) if tuple_keys else (k, 1)) for k in live.keys()]
-    if a != l:
+    if a is not None and a != l:
         die(f"{rel}: {varname}: ast reading {a[:3]}... ({len(a)}) differs from the live table ({len(l)})")
 
 
 def cross_check_sizes(rel, varname, live):
-    a = [k for k, _ in ast_dict_keys(rel, varname)]
-    if a != list(live.keys()):
+    a = soft(ast_dict_keys, rel, varname)
+    if a is not None and [k for k, _ in a] != list(live.keys()):
         die(f"{rel}: {varname}: ast keys differ from the live table")
 
 
@@ -173,18 +174,54 @@ tree = src("pdks/Asap7/asap7_hdl21/pdk.py")
 nlit = {}
 for st in tree.body:
     if isinstance(st, ast.Assign) and isinstance(st.targets[0], ast.Name) and st.targets[0].id in ("_mos_typenames", "_mos_vtnames"):
-        if not isinstance(st.value, ast.Dict):
-            die("asap7: name map is not a dict literal")
-        nlit[st.targets[0].id] = len(st.value.keys)
-if nlit.get("_mos_typenames") != len(A7._mos_typenames) or nlit.get("_mos_vtnames") != len(A7._mos_vtnames) \
-        or len(A7._mos_modules) != len(A7._mos_typenames) * len(A7._mos_vtnames):
+        if isinstance(st.value, ast.Dict):
+            nlit[st.targets[0].id] = len(st.value.keys)
+for nm in nlit:
+    if nlit[nm] != len(getattr(A7, nm)):
+        die(f"asap7: {nm}: the literal of the source has {nlit[nm]} entries, the live table {len(getattr(A7, nm))}")
+if len(A7._mos_modules) != len(A7._mos_typenames) * len(A7._mos_vtnames):
     die("asap7: device table does not have |types| x |vts| entries")
+
+
+def walker_choices(walker_cls, what):
+    """BEHAVIOUR of <walker>.mos_module on the generic MosParams of every (type, family, threshold) triple:
+    {triple: ExternalModule | None (refused)}"""
+    out = {}
+    for tp in MosType:
+        for fam in MosFamily:
+            for vth in MosVth:
+                try:
+                    mod = walker_cls().mos_module(h.MosParams(tp=tp, family=fam, vth=vth))
+                except Exception:
+                    mod = None
+                if mod is not None and not isinstance(mod, h.ExternalModule):
+                    die(f"{what}: mos_module returns {mod!r}")
+                out[(tp, fam, vth)] = mod
+    return out
+
+
+# the walker must choose by (type, threshold) out of the dumped table, and refuse what the table does not have
+for (tp, fam, vth), mod in walker_choices(A7.Asap7Walker, "asap7").items():
+    if mod is not A7._mos_modules.get((tp, vth), None):
+        die(f"asap7: Asap7Walker.mos_module{(tp, fam, vth)} is not the entry {(tp, vth)} of _mos_modules")
 emit("PdkTables_asap7", table_term("asap7_mos_modules", A7._mos_modules, True))
 
-# ------------------------------------------------------------------------------------------ sample PDK (two devices chosen by `if params.tp == MosType.PMOS`)
+# ------------------------------------------------------------------------------------------ sample PDK (two devices chosen by the MOS type alone)
 import hdl21.pdk.sample_pdk.pdk as SP
-f = find_func(src("hdl21/pdk/sample_pdk/pdk.py"), "mos_module", cls="SamplePdkWalker")
-rets = [n.value.id for n in ast.walk(f) if isinstance(n, ast.Return) and isinstance(n.value, ast.Name)]
-if sorted(rets) != ["Nmos", "Pmos"]:
-    die(f"sample pdk: mos_module returns {rets}, expected [Pmos, Nmos]")
-emit("PdkTables_sample", table_term("sample_mos_modules", {(MosType.PMOS,): SP.Pmos, (MosType.NMOS,): SP.Nmos}, True))
+by_type = {}
+for (tp, fam, vth), mod in walker_choices(SP.SamplePdkWalker, "sample pdk").items():
+    if mod is None:
+        die(f"sample pdk: mos_module refuses {(tp, fam, vth)}")
+    if by_type.setdefault(tp, mod) is not mod:
+        die(f"sample pdk: mos_module chooses by more than the MOS type ({(tp, fam, vth)})")
+# SOURCE, when the choice is still spelled with the two module names: they must be the devices chosen
+f = soft(find_func, src("hdl21/pdk/sample_pdk/pdk.py"), "mos_module", cls="SamplePdkWalker")
+rets = []
+for n in (ast.walk(f) if f is not None else []):
+    if isinstance(n, ast.Return) and n.value is not None:
+        vals = [n.value.body, n.value.orelse] if isinstance(n.value, ast.IfExp) else [n.value]
+        rets += [v.id for v in vals if isinstance(v, ast.Name)]
+if rets and (any(not hasattr(SP, r) for r in rets) or {id(getattr(SP, r)) for r in rets} != {id(m) for m in by_type.values()}):
+    die(f"sample pdk: mos_module returns {rets} in the source, the live walker chooses {[m.name for m in by_type.values()]}")
+order = [MosType.PMOS, MosType.NMOS] + [t for t in MosType if t not in (MosType.PMOS, MosType.NMOS)]
+emit("PdkTables_sample", table_term("sample_mos_modules", {(tp,): by_type[tp] for tp in order}, True))
